@@ -165,6 +165,25 @@ struct IdentWorld : World {
 				  bool ok; { Sut su; ok = c->set_name((const char *) nb.p, (int) len); } if (!ok) fail("refused-valid", "C++ set_name of %zu bytes refused", len);
 				  const char *nm; { Sut su; nm = c->name(); } if (len && (!nm || memcmp(nm, nb.p, len) || nm[len])) fail("wrong-content", "C++ identifier name of %zu bytes reads back differently (storage %zu)", len, total); }
 				{ Sut su; c->~identifier(); }
+				if (op.c & 16) {
+					// item<T>: an identifier with eight more inline bytes behind it. Names around both capacities go through copy construction,
+					// renaming of the copy and copy assignment into a third item: each must read exactly what it was given last
+					size_t la = (size_t) (op.c >> 5) % 26, lb = (size_t) (op.c >> 10) % 26;
+					std::string na(la, 'A'), nbs(lb, 'B'); for (size_t k = 0; k < la; ++k) na[k] = (char) ('A' + k % 26); for (size_t k = 0; k < lb; ++k) nbs[k] = (char) ('a' + k % 26);
+					item<metatype> *ia, *ib, *ic; bool ok1, ok2;
+					{ Sut su; ia = new item<metatype>(); ok1 = ia->set_name(na.c_str(), (int) la); }
+					{ Sut su; ib = new item<metatype>(*ia); }
+					auto nm = [&](item<metatype> *it) -> std::string { const char *x; { Sut su; x = it->name(); } return x ? x : ""; };
+					if (!ok1 || nm(ia) != na) fail("wrong-content", "item<T> named with %zu characters reads '%s'", la, nm(ia).c_str());
+					if (nm(ib) != na) fail("wrong-content", "copy-constructed item<T> reads '%s', its source is named with %zu characters", nm(ib).c_str(), la);
+					{ Sut su; ok2 = ib->set_name(nbs.c_str(), (int) lb); }
+					{ Sut su; ic = new item<metatype>(); *ic = *ib; }
+					if (!ok2 || nm(ib) != nbs) fail("wrong-content", "renamed item<T> copy (%zu characters) reads '%s'", lb, nm(ib).c_str());
+					if (nm(ic) != nbs) fail("wrong-content", "item<T> assigned from an item named with %zu characters (whose own source had %zu) reads '%s'", lb, la, nm(ic).c_str());
+					if (nm(ia) != na) fail("source-changed", "the source item<T> changed while its copy was renamed");
+					{ Sut su; delete ic; delete ib; delete ia; }
+					st.hit("probe:cxx_item_copy_assign");
+				}
 				log.ev("CXX_COPY from %d (storage %zu) into %zu bytes%s, assign from %d", s, ssize[s], total, fired ? " allocfail" : "", t);
 				st.hit(ssize[s] > total ? "probe:cxx_copy_from_larger_storage" : "probe:cxx_copy_same_or_smaller");
 				outcome = 1;
